@@ -416,6 +416,7 @@ def run (ic : Bool) : Nat → Re → St → (St → Res St) → Res St
   | f + 1, .group i r, st, k =>
     run ic f r st (fun st' => k { st' with caps := setCap st'.caps i (st.pos, st'.pos) })
   | f + 1, .rep mn mx r, st, k => loop ic f mn mx r 0 none st k
+termination_by structural fuel => fuel
 
 /-- sre's MAX_UNTIL: `count` iterations done; `last` = start of the previous optional
 iteration (`last_ptr`). -/
@@ -429,6 +430,7 @@ def loop (ic : Bool) : Nat → Nat → Option Nat → Re → Nat → Option Nat 
       | .fail => k st
       | res => res
     else k st
+termination_by structural fuel => fuel
 end
 
 structure MatchObj where
@@ -743,6 +745,12 @@ example : pyFullmatch false "a|ab".toList "ab".toList
 
 example : pySearch false "\\[[ ]?([A-Z][a-zA-Z]+) \"([^\"]*)\"[ ]?\\]".toList "x [Dealer \"N\"]".toList
     = some (some { span := (2, 14), groups := [some (3, 9), some (11, 12)] }) := by decide +kernel
+
+example : (pyMatch false
+      "([NESW]):([2-9TJQKA\\.]{16}|-) ([2-9TJQKA\\.]{16}|-) ([2-9TJQKA\\.]{16}|-) ([2-9TJQKA\\.]{16}|-)".toList
+      "N:AKQJ.T987.6543.2 - 765.65.AKQJT.982 -".toList).map (·.map (·.groups))
+    = some (some [some (0, 1), some (2, 18), some (19, 20), some (21, 37), some (38, 39)]) := by
+  decide +kernel
 
 -- CPython >= 3.7 treatment of empty matches
 example : pySub false "x*".toList "-".toList "abxd".toList = some "-a-b--d-".toList := by decide +kernel
